@@ -175,6 +175,7 @@ def configs(tier, seed):
         cfg.setdefault("seed", seed)
         cfg.setdefault("h", 3 if q else 4)
         cfg.setdefault("max_paths", 350 if q else 1300)
+        cfg.setdefault("max_twins", 25000 if q else 100000)
         out.append(cfg)
 
     # --- reused worlds: stopping / promotion / synchronous Hyperband
